@@ -137,6 +137,15 @@ def real_rerun(cfg, inp):
     import mokapot
     folds = int(inp["folds"])
 
+    import mokapot.dataset as Dm
+    splits = []
+    orig_split = Dm.OnDiskPsmDataset._split
+
+    def rec_split(self, f_, r_):
+        res = orig_split(self, f_, r_)
+        splits.append([[int(i) for i in a] for a in res])
+        return res
+
     def run(d, model, workers):
         dss = []
         for fid, rows in enumerate(inp["files"]):
@@ -145,11 +154,26 @@ def real_rerun(cfg, inp):
             dss.append(mokapot.read_pin(p, max_workers=1)[0])
         _, models, scores, _ = mokapot.brew(dss, model=model, test_fdr=1.0, folds=folds, max_workers=workers, rng=42, subset_max_train=cfg.get("cap"))
         return models, [np.asarray(s, dtype=float).tolist() for s in scores]
+    Dm.OnDiskPsmDataset._split = rec_split
+    try:
+        for attempt in range(6 if cfg.get("_failed") else 1):  # an unseeded draw shows up only with some probability per pair of runs
+            v = _pair(cfg, inp, run, splits, folds)
+            if v.get("violation") or v.get("exception"):
+                return v
+        return v
+    finally:
+        Dm.OnDiskPsmDataset._split = orig_split
+
+
+def _pair(cfg, inp, run, splits, folds):
+    import tempfile
+    del splits[:]
     with tempfile.TemporaryDirectory(prefix="verif_c08a_") as d1, tempfile.TemporaryDirectory(prefix="verif_c08b_") as d2:
         try:
             modelsA, scoresA = run(d1, c02._RealModel({}, False), 1)
         except Exception as ex:
             return dict(exception=repr(ex), violation=None)
+        nA = len(splits)
         try:
             if inp["mode"] == "rerun":
                 modelsB, scoresB = run(d2, c02._RealModel({}, False), 3)
@@ -158,6 +182,8 @@ def real_rerun(cfg, inp):
                 modelsB, scoresB = run(d2, [modelsA[i] for i in order], 1)
         except Exception as ex:
             return dict(exception=repr(ex), violation="second run with the same seed raised %r" % (ex,))
+    if splits[:nA] != splits[nA:]:
+        return dict(violation="fold assignment differs between two runs with the same seed: %s vs %s" % (splits[:nA], splits[nA:]))
     if scoresA != scoresB:
         return dict(violation="%s: scores of the second run %s differ from the first run %s" % (inp["mode"], scoresB, scoresA))
     if inp["mode"] == "rerun" and sorted((m.fold, sorted(m.trained_on)) for m in modelsA) != sorted((m.fold, sorted(m.trained_on)) for m in modelsB):
